@@ -214,7 +214,10 @@ fn fen_halfmove_clock(input: &str) -> IResult<&str, u32> {
 }
 
 fn fen_fullmove_number(input: &str) -> IResult<&str, u32> {
-    nom::character::complete::u32(input)
+    // The move number is converted to a number of plies, which has to fit too
+    nom::combinator::verify(nom::character::complete::u32, |n: &u32| {
+        n.checked_mul(2).is_some()
+    })(input)
 }
 
 fn fen_parser(input: &str) -> IResult<&str, Game> {
@@ -251,7 +254,8 @@ fn fen_parser(input: &str) -> IResult<&str, Game> {
 
 #[inline(always)]
 fn plies_from_fullmove_number(fullmove_number: u32, player: Player) -> u32 {
-    (fullmove_number - 1) * 2 + u32::from(player == Player::Black)
+    // Some programs write a move number of 0 for the first move: treat it like 1
+    fullmove_number.saturating_sub(1) * 2 + u32::from(player == Player::Black)
 }
 
 pub fn parse(input: &str) -> Result<Game, String> {
